@@ -122,6 +122,8 @@ type Analyzer struct {
 	// statistics for evidence
 	NegRsp, Accepted, Teardowns, StaleIntra, URepIEs, TermReports, ImmReports, Dups int
 	NoFaults                                                                        bool
+	// refused: rules whose removal the data plane refused (injected): they stay installed through no fault of the UPF
+	refused map[RuleKey]bool
 }
 
 func (a *Analyzer) add(prop, sig, desc string, step int) {
@@ -165,7 +167,13 @@ func liveSet(sn *pfcp.VerifSnap) map[uint64]*pfcp.VerifSess {
 // Analyze runs all PFCP-level oracles (C01 C04 C05 C08 C11 C12) over a trace.
 func Analyze(tr *Trace) *Analyzer {
 	a := &Analyzer{tr: tr, nodes: map[int]*mNode{}, sess: map[int]*mSess{}, byUP: map[uint64]*mSess{}}
-	a.NoFaults = len(tr.Faults) == 0 && !tr.NoRemRep
+	a.NoFaults = !tr.NoRemRep
+	for k := range tr.Faults {
+		if k < RemBase { // refused removals leave a well-defined state (the rule stays); other faults do not
+			a.NoFaults = false
+		}
+	}
+	a.refused = map[RuleKey]bool{}
 	upfAddr := tr.UPFIP + ":8805"
 	for _, st := range tr.Steps {
 		if !st.Sent || st.Post == nil {
@@ -310,7 +318,7 @@ func Analyze(tr *Trace) *Analyzer {
 							}
 							// a released SEID may be re-issued only after its previous session is gone from the data plane
 							for k := range st.DPPre {
-								if k.SEID == upseid {
+								if k.SEID == upseid && !a.refused[k] {
 									a.add("C04", "seid-reused-before-cleanup", fmt.Sprintf("UP SEID %#x issued while rule %s of its previous session is still in the data plane", upseid, k), i)
 									break
 								}
@@ -538,7 +546,20 @@ func Analyze(tr *Trace) *Analyzer {
 		}
 
 		// ---- C01 (d)/(e): nothing in the data plane without a live requesting session ----
+		for _, c := range st.Calls {
+			if c.Op == "Remove" {
+				k := RuleKey{Kind: c.Kind, SEID: c.SEID, ID: c.ID}
+				if c.Fault == "na" {
+					a.refused[k] = true
+				} else if c.Err == "" {
+					delete(a.refused, k)
+				}
+			}
+		}
 		for k := range st.DPPost {
+			if a.refused[k] {
+				continue
+			}
 			s := a.byUP[k.SEID]
 			if s == nil {
 				a.add("C01", "orphan-rule", fmt.Sprintf("rule %s is in the data plane but SEID %#x is not a live session", k, k.SEID), i)
@@ -745,9 +766,27 @@ func (a *Analyzer) c11c12(st *Step, s *mSess, deletion bool) {
 	immer := map[uint32]int{}
 	removedURR := map[uint32]bool{}
 	touched := map[uint32]bool{} // URRs named by a PDR that is removed / re-pointed in this request
+	refusedNow := func(kind string, id uint64) bool {
+		ref := false
+		for _, c := range st.Calls {
+			if c.Op == "Remove" && c.Kind == kind && c.ID == id {
+				if c.Fault == "na" {
+					ref = true
+				} else if c.Err == "" {
+					return false // removed after all (the id was named twice)
+				}
+			}
+		}
+		return ref
+	}
 	if deletion {
 		for id, m := range s.urr {
 			if m.live {
+				if refusedNow("URR", uint64(id)) {
+					// it lives on in the data plane; a referring PDR removed after it may still draw a final report
+					allowed[id] = true
+					continue
+				}
 				required[id] = 1
 			}
 		}
@@ -755,7 +794,7 @@ func (a *Analyzer) c11c12(st *Step, s *mSess, deletion bool) {
 		for _, r := range op.Remove {
 			if r.Kind == "URR" {
 				id := uint32(r.ID)
-				if m := s.urr[id]; m != nil && m.live && !removedURR[id] {
+				if m := s.urr[id]; m != nil && m.live && !removedURR[id] && !refusedNow("URR", uint64(id)) {
 					required[id] = 1
 					removedURR[id] = true
 				}
@@ -763,6 +802,9 @@ func (a *Analyzer) c11c12(st *Step, s *mSess, deletion bool) {
 		}
 		for _, r := range op.Remove {
 			if r.Kind == "PDR" {
+				if refusedNow("PDR", r.ID) {
+					continue // the PDR stays, with its URR list
+				}
 				if l, ex := s.pdrURR[r.ID]; ex {
 					for _, u := range l {
 						touched[u] = true
